@@ -124,9 +124,31 @@ def gen_plan(prop, r, tier, run):
             ops.append({'op': 'delete_all'})
             ops.append({'op': 'discover', 'rex': r.chance(0.5)})
             ops.append({'op': 'verify'})
+    if r.chance(0.3):
+        # a second table of the same name with the same column names but
+        # freshly drawn declared types: either the table is dropped and
+        # re-created, or the session moves to another database
+        ops.extend(gen_recreate(r, cols))
     for i, op in enumerate(ops):
         op['i'] = i
     return {'config': cfg, 'ops': ops}
+
+
+def gen_recreate(r, cols):
+    cols2 = [{'name': c['name'],
+              'type': r.weighted([(3, 'integer'), (2, 'real'), (3, 'text'),
+                                  (1, 'varchar'), (2, 'boolean'),
+                                  (1.5, 'datetime')])} for c in cols]
+    ops = [{'op': 'recreate', 'how': r.pick(['drop', 'newdb']),
+            'columns': cols2,
+            'rows': gen_rows(r, cols2, r.randint(1, 8))},
+           {'op': 'discover', 'rex': r.chance(0.4)},
+           {'op': 'verify'}]
+    for _ in range(r.weighted([(1, 0), (4, 1), (2, 2)])):
+        ops.append({'op': 'rogue_insert', 'pick': r.random(),
+                    'pick2': r.random()})
+        ops.append({'op': 'verify'})
+    return ops
 
 
 # --------------------------------------------------------------------------
@@ -206,7 +228,9 @@ def execute(plan):
             for op in plan['ops']:
                 OPS[op['op']](ctx, op)
         finally:
-            if conn is not None:
+            if getattr(ctx, 'conn', None) is not None:
+                ctx.conn.close()
+            elif conn is not None:
                 conn.close()
             sys.stdout = saved['stdout']
             sys.stderr = saved['stderr']
@@ -244,6 +268,36 @@ def op_delete_all(ctx, op):
     ctx.rogue = None
     ctx.stats['probes']['table_emptied'] += 1
     ctx.events.append({'i': op['i'], 'op': 'delete_all'})
+
+
+def op_recreate(ctx, op):
+    from tdda.constraints.db import drivers
+    if op['how'] == 'newdb':
+        ctx.conn.close()
+        ctx.conn = drivers.database_connection_sqlite(None, None, ':memory:',
+                                                      None, None)
+        ctx.db = drivers.DBConnector(ctx.conn, None, host=None, port=None,
+                                     database=':memory:', user=None)
+    else:
+        ctx.conn.cursor().execute('DROP TABLE %s' % ctx.table)
+        ctx.conn.commit()
+    changed = sorted('%s>%s' % (a['type'], b['type'])
+                     for a, b in zip(ctx.cols, op['columns'])
+                     if a['type'] != b['type'])
+    ctx.cols = op['columns']
+    ctx.conn.cursor().execute('CREATE TABLE %s (%s)' % (ctx.table, ', '.join(
+        '%s %s' % (q(c['name']), c['type']) for c in ctx.cols)))
+    insert_rows(ctx, op['rows'])
+    ctx.cs = None
+    ctx.clean = False
+    ctx.rogue = None
+    if changed:
+        ctx.nontrivial = True
+        ctx.stats['probes']['same_table_name_other_declared_types'] += 1
+    ctx.stats['probes']['recreate_' + op['how']] += 1
+    ctx.shape.append('X%s%d' % (op['how'][0], len(changed)))
+    ctx.events.append({'i': op['i'], 'op': 'recreate', 'how': op['how'],
+                       'changed': changed})
 
 
 def text_class(ctx):
@@ -477,7 +531,8 @@ def rogue_value(ctx, f, kind, v, pick2):
 
 
 OPS = {'insert': op_insert, 'discover': op_discover, 'verify': op_verify,
-       'rogue_insert': op_rogue_insert, 'delete_all': op_delete_all}
+       'rogue_insert': op_rogue_insert, 'delete_all': op_delete_all,
+       'recreate': op_recreate}
 
 
 def shrink(plan):
@@ -491,6 +546,8 @@ def shrink(plan):
             for op in cand['ops']:
                 for row in op.get('rows', []):
                     del row[ci]
+                if 'columns' in op:
+                    del op['columns'][ci]
             yield cand
     for ri in range(len(cfg['rows'])):
         cand = copy.deepcopy(plan)
